@@ -108,6 +108,21 @@ def _install_pop(policy, seed):
     return undo
 
 
+def _grown(g, sr, rename, order):
+    R, _, conv, _ = bridge.SEMIRINGS[sr]
+    f = (lambda x: x) if rename is None else (lambda x: x if x in g.V else rename(x))
+    cfg = bridge.CFG(R=R, S=f(g.S), V=set(g.V))
+    rules = list(g.rules) if order is None else [g.rules[i] for i in order]
+    half = len(rules) // 2
+    for w, h, b in rules[:half]:
+        cfg.add(conv(w), f(h), *[f(y) for y in b])
+    for q in (cfg.agenda, cfg.treesum, cfg.dependency_graph):
+        call(q)                      # a sub-grammar of a convergent grammar converges (monotone); results are not used
+    for w, h, b in rules[half:]:
+        cfg.add(conv(w), f(h), *[f(y) for y in b])
+    return cfg
+
+
 def check_case(case):
     g, sr = case["g"], case["sr"]
     R, ops, conv, val = bridge.SEMIRINGS[sr]
@@ -144,6 +159,10 @@ def check_case(case):
     undo = _install_pop(case["pop"], len(g.rules))
     try:
         cfg = bridge.to_cfg(g, sr, rename=common.renamer(case["rename"]), order=case["order"])
+        if case["rename"] != "id" and len(g.rules) >= 2:
+            # the same grammar, but built in two steps with total-weight queries in between: the value must depend on the grammar
+            # as it is now, not on what was computed for an earlier state of the object (strengthened after seeded change C08-2)
+            cfg = _grown(g, sr, common.renamer(case["rename"]), case["order"])
         N = sorted(gs.N, key=repr)
         nontrivial = any(not ops.is_zero(t[X]) for X in N)
         # ---- agenda
